@@ -544,11 +544,7 @@ def handleInactivity (s : State) (now : Nat) : State × Bool :=
 def handleAckTimer (s : State) (now : Nat) (cancelled : Bool) : State :=
   let r := s.timer.ack.limitReached now
   let s := { s with timer := { s.timer with ack := r.1 } }
-  if r.2 then
-    (if cancelled then abandon s now
-     -- nothing is acknowledged in unacknowledged mode: the repeated closure Finished PDU just ends
-     else if s.cfg.mode == TransmissionMode.Unacknowledged then shutdown s now
-     else (handleFault s .PositiveLimitReached now).1)
+  if r.2 then (if cancelled then abandon s now else (handleFault s .PositiveLimitReached now).1)
   else
     let o := s.timer.ack.timeoutOccurred now
     let s := { s with timer := { s.timer with ack := o.1 } }
@@ -557,8 +553,17 @@ def handleAckTimer (s : State) (now : Nat) (cancelled : Bool) : State :=
       { s with timer := { s.timer with ack := s.timer.ack.restart now } }
     else s
 
-/-- `handle_timeout` -/
-def handleTimeout (s : State) (now : Nat) : State :=
+/-- `handle_timeout`, unacknowledged mode with the closure Finished PDU out: has the positive-ACK or
+the inactivity limit been reached?  (`||` evaluates the second counter only if the first says no) -/
+def unackFinishedLimit (s : State) (now : Nat) : State × Bool :=
+  let a := s.timer.ack.limitReached now
+  let s := { s with timer := { s.timer with ack := a.1 } }
+  if a.2 then (s, true) else
+  let i := s.timer.inactivity.limitReached now
+  ({ s with timer := { s.timer with inactivity := i.1 } }, i.2)
+
+/-- `handle_timeout`, the general part -/
+def handleTimeoutMain (s : State) (now : Nat) : State :=
   if s.state == .Suspended then s else
   let i := handleInactivity (handleDelayed s now) now
   if !i.2 then i.1 else
@@ -575,6 +580,15 @@ def handleTimeout (s : State) (now : Nat) : State :=
   -- the NAK timer is only serviced while receiving
   | .Finished => handleAckTimer { s with timer := { s.timer with nak := s.timer.nak.pause now } } now false
   | .Cancelled => handleAckTimer { s with timer := { s.timer with nak := s.timer.nak.pause now } } now true
+
+/-- `handle_timeout`: nothing is acknowledged in unacknowledged mode, so a receiver repeating its
+closure Finished PDU simply ends when a limit is reached -/
+def handleTimeout (s : State) (now : Nat) : State :=
+  if s.state == .Suspended then s else
+  if s.cfg.mode == TransmissionMode.Unacknowledged && s.recvState == .Finished then
+    let r := unackFinishedLimit s now
+    if r.2 then shutdown r.1 now else handleTimeoutMain r.1 now
+  else handleTimeoutMain s now
 
 /-- `send_report` -/
 def sendReport (s : State) : State := emit s (generateReport s)
